@@ -16,6 +16,8 @@ for _c in ("prop_clust", "prop_clust_k"):
     for _l in ("lat_nball", "lat_nsphere", "lat_nball_cv"):
         ALIAS["+".join(sorted([_c, _l]))] = "clust_lat_nball"
     ALIAS["+".join(sorted([_c, "flow_mlp"]))] = "clust_flow_mlp"
+    for _p in ("plot_min", "plot_all", "run_plots"):
+        ALIAS["+".join(sorted([_c, _p]))] = "clust_plots"
     for _n in ("nlive_small", "nlive_small_plots", "nlive_small_plot_all", "nlive_10"):
         ALIAS["+".join(sorted([_c, _n]))] = "clust_nlive_small"
 
